@@ -47,13 +47,15 @@ def gen_case(rng, i):
     script = rng.choice(['test_gen.py', 'test_gen.py', 'gen', 'gen.py', 'ABS', 'OMIT'])
     names = [f['name'] for f in spec['files']]
     refmode = rng.choice(['explicit', 'dot', 'none', 'glob']) if names else rng.choice(['none', 'dot'])
+    if refmode == 'glob' and not all(n.startswith('out') and '/' not in n for n in names):
+        refmode = 'explicit'
     if script == 'OMIT':
         refmode = 'none'
     return {'spec': spec, 'flags': flags, 'iterations': it, 'script': script, 'refmode': refmode, 'decoys': rng.random() < 0.7,
             'previous_generation': rng.random() < 0.2, 'flags_first': rng.random() < 0.5}
 
 
-def bare_run(workdir, env, mut=None):
+def bare_run(workdir, env, mut=None, names=None):
     e = dict(os.environ)
     e.update(env)
     if mut is not None:
@@ -62,8 +64,8 @@ def bare_run(workdir, env, mut=None):
         e.pop('VT_MUT', None)
     p = subprocess.run('sh cmd.sh', shell=True, cwd=workdir, env=e, stdout=subprocess.PIPE, stderr=subprocess.PIPE, timeout=60)
     files = {}
-    for fn in sorted(os.listdir(workdir)):
-        if fn.startswith('out') and os.path.isfile(os.path.join(workdir, fn)):
+    for fn in (names or []):
+        if os.path.isfile(os.path.join(workdir, fn)):
             files[fn] = open(os.path.join(workdir, fn), 'rb').read()
     return (p.returncode, p.stdout, p.stderr, files)
 
@@ -103,8 +105,9 @@ def generate(ctx, case, tag='g'):
     env = {'LOGNAME': USER, 'USER': USER, 'HOME': home, 'TDDA_FAIL_DIR': os.path.join(root, 'fail')}
     os.makedirs(env['TDDA_FAIL_DIR'])
     try:
-        r1 = bare_run(workdir, env)
-        r2 = bare_run(workdir, env)
+        allnames = [f['name'] for f in spec['files']]
+        r1 = bare_run(workdir, env, names=allnames)
+        r2 = bare_run(workdir, env, names=allnames)
     except subprocess.TimeoutExpired:
         return None
     if r1 != r2:
@@ -177,4 +180,5 @@ def script_exclusions(path):
 
 
 def test_name_for_file(name):
-    return 'test_' + ''.join(c if c.isalnum() else '_' for c in name)
+    """Prefix of the generated test's name (gentest appends a number when two files collide)."""
+    return 'test_' + ''.join(c if c.isalnum() else '_' for c in os.path.basename(name))
